@@ -241,13 +241,13 @@ type vpPods struct {
 
 func (p *vpPods) Get(ctx context.Context, name string, opts metav1.GetOptions) (*corev1.Pod, error) {
 	if err := p.w.tick("pods.get", name); err != nil {
-		return nil, err
+		return &corev1.Pod{}, err
 	}
 	p.w.mu.Lock()
 	defer p.w.mu.Unlock()
 	pod, ok := p.w.pods[name]
 	if !ok || p.ns != vpNS {
-		return nil, apierrors.NewNotFound(vpPodGR, name)
+		return &corev1.Pod{}, apierrors.NewNotFound(vpPodGR, name)
 	}
 	return pod, nil
 }
@@ -293,13 +293,13 @@ type vpNodes struct {
 
 func (n *vpNodes) Get(ctx context.Context, name string, opts metav1.GetOptions) (*corev1.Node, error) {
 	if err := n.w.tick("nodes.get", name); err != nil {
-		return nil, err
+		return &corev1.Node{}, err
 	}
 	n.w.mu.Lock()
 	defer n.w.mu.Unlock()
 	node, ok := n.w.nodes[name]
 	if !ok {
-		return nil, apierrors.NewNotFound(schema.GroupResource{Resource: "nodes"}, name)
+		return &corev1.Node{}, apierrors.NewNotFound(schema.GroupResource{Resource: "nodes"}, name)
 	}
 	return node, nil
 }
@@ -311,7 +311,7 @@ type vpConfigMaps struct {
 
 func (c *vpConfigMaps) Get(ctx context.Context, name string, opts metav1.GetOptions) (*corev1.ConfigMap, error) {
 	if err := c.w.tick("configmaps.get", name); err != nil {
-		return nil, err
+		return &corev1.ConfigMap{}, err
 	}
 	defer c.w.windowPoint()
 	return &corev1.ConfigMap{Data: map[string]string{"floatingips": c.w.configMap}}, nil
